@@ -145,8 +145,17 @@ func (r *run) runProducerOnly() {
 		overRate = 200
 	}
 	over := ""
+	overAt := -1
 	if t.Chance(core.Fault, 1, overRate) {
 		over = overLimitKinds[t.Draw(core.Fault, len(overLimitKinds))]
+		// the over-limit batch may come anywhere in the history: what follows a
+		// refused batch is "after arbitrary earlier batches" too
+		overAt = t.Draw(core.Fault, hp.nBatches)
+		if t.Chance(core.Fault, 1, 2) {
+			overAt = hp.nBatches - 1
+		} else if hp.nBatches < 3 {
+			hp.nBatches += 2
+		}
 	}
 	obs := &obsRec{r: r}
 	var producer *arrow_record.Producer
@@ -165,7 +174,7 @@ func (r *run) runProducerOnly() {
 	for i := 0; i < hp.nBatches; i++ {
 		r.batch = i
 		var b *batchIn
-		last := i == hp.nBatches-1
+		last := i == overAt
 		if over != "" && last {
 			b = overLimitBatch(over)
 			r.fault("overlimit_" + over)
@@ -195,8 +204,12 @@ func (r *run) runProducerOnly() {
 			}
 		}
 		if err != nil {
+			// the producer returned an error: allowed; the stream goes on with
+			// the next batch, which must again give a batch or an error
 			r.probe("encode_error")
-			break // what a producer does after a failed encode is not stated
+			if i < hp.nBatches-1 {
+				r.probe("batches_after_a_refused_batch")
+			}
 		}
 	}
 	func() {
